@@ -231,18 +231,44 @@ FORBIDDEN = re.compile(r"\b(Admitted|admit|Axiom|Axioms|Parameter|Parameters|Con
                        r"Unset Guard Checking|Unset Positivity Checking|Unset Universe Checking|type-in-type|impredicative-set)\b")
 
 
-def scan_forbidden():
+def dep_closure(vfiles):
+    """transitive .v dependencies (relative to coq/) of the given .v files, from coq_makefile's .Makefile.d"""
+    deps = {}
+    path = os.path.join(build.COQ, ".Makefile.d")
+    if os.path.exists(path):
+        for line in open(path).read().replace("\\\n", " ").splitlines():
+            if ":" not in line:
+                continue
+            lhs, rhs = line.split(":", 1)
+            tg = [x for x in lhs.split() if x.endswith(".vo")]
+            if not tg:
+                continue
+            deps[tg[0][:-1]] = [x[:-1] for x in rhs.split() if x.endswith(".vo")]
+    seen, todo = set(), list(vfiles)
+    while todo:
+        f = todo.pop()
+        if f in seen:
+            continue
+        seen.add(f)
+        todo.extend(deps.get(f, []))
+    return sorted(seen)
+
+
+def scan_forbidden(vfiles):
+    """grep the dependency closure of this property's files for constructs that would make a proof unsound"""
     bad = []
-    for f in build.coq_files():
-        txt = open(os.path.join(build.COQ, f)).read()
+    for f in dep_closure(vfiles):
+        try:
+            txt = open(os.path.join(build.COQ, f)).read()
+        except OSError:
+            continue
         txt = re.sub(r"\(\*.*?\*\)", "", txt, flags=re.S)
         for m in FORBIDDEN.finditer(txt):
             bad.append("%s: %s" % (f, m.group(0)))
-        # top-level Variable/Hypothesis outside sections
         depth = 0
         for line in txt.splitlines():
             s = line.strip()
-            if re.match(r"(Section|Module)\s", s):
+            if re.match(r"(Section|Module)\s+\w+\s*\.", s):
                 depth += 1
             elif re.match(r"End\s", s):
                 depth -= 1
@@ -302,9 +328,6 @@ def run_check(prop, tier, seed, replay=None):
     props_v = prop.PROPS or ("props/%s.v" % pid)
     obligations, discharged, assumptions_seen = 0, 0, {}
     thm_names = []
-    bad = scan_forbidden()
-    if bad:
-        broken.append(("hygiene", "forbidden-construct", "; ".join(bad[:10])))
     if os.path.exists(os.path.join(build.COQ, props_v)):
         thm_names = theorem_names(open(os.path.join(build.COQ, props_v)).read())
         obligations = len(thm_names)
@@ -314,6 +337,9 @@ def run_check(prop, tier, seed, replay=None):
             ok, out = build.coqc_capture(props_v)
             if not ok:
                 raise build.BuildError("coqc " + props_v, out)
+            bad = scan_forbidden([props_v])
+            if bad:
+                broken.append(("hygiene", "forbidden-construct", "; ".join(bad[:10])))
             ass = parse_assumptions(out)
             if len(ass) != obligations:
                 notes.append("Print Assumptions blocks (%d) != theorems (%d)" % (len(ass), obligations))
